@@ -303,7 +303,8 @@ func groupsFor(t tables.Table) (groups [][]int, hetero []bool) {
 		// X4 = 0.5, 1, 1.4, 2.5, 4, 0.7 -> state lengths differ; (1, 0.7) share n1=1, n2=2
 		return [][]int{{1, 5}, {2}, {3}, {0, 3}, {3, 0}}, []bool{false, false, false, true, true}
 	case "Lag":
-		return [][]int{{2}, {3}, {0}, {1, 3}, {3, 1}}, []bool{false, false, false, true, true}
+		// lags 0,1,2,3,5; mixed groups include a shorter-lag cell whose lag still exceeds a 1-step (or 3-step) series
+		return [][]int{{2}, {3}, {0}, {1, 3}, {3, 1}, {2, 3}, {3, 2}, {3, 4}, {4, 3}}, []bool{false, false, false, true, true, true, true, true, true}
 	}
 	return [][]int{all}, []bool{false}
 }
